@@ -67,6 +67,10 @@ FAMILIES = {
     "benign_scan": ("ab", lambda n: "a" * n, False),
     "quadratic_class": ("[a-c]+d", lambda n: "abc" * (n // 3), False),
 }
+# patterns sized around the engine's capacity limit for position registers: just
+# below, at and above a limit the answer is a match or a SyntaxError, never a host error
+for _k in (254, 255, 256, 257):
+    FAMILIES["loops_%d" % _k] = ("(?:a?)*" * _k, lambda n: "a" * min(n, 5), False)
 FAMILY_NAMES = sorted(FAMILIES)
 
 APIS = {
@@ -243,7 +247,7 @@ def work_bound(case, act):
     n = len(FAMILIES[case["cell"]["family"]][1](case["cell"]["n"]))
     S = case["knobs"]["step_limit"]
     acts = act["main"] + act["la"] + act["lb"]
-    return BOUND_C * (S + 2) * max(1, acts) + BOUND_PER_ACT * acts + 60 * n + BOUND_C0
+    return BOUND_C * (S + 2) * max(1, acts) + BOUND_PER_ACT * acts + 60 * n + BOUND_C0 + 600 * len(FAMILIES[case["cell"]["family"]][0])
 
 
 def execute(case):
@@ -280,6 +284,9 @@ def execute(case):
             S.mono_off += 2.5 * T      # the process was stalled between the two evals
     start = S.work
     per_act = BOUND_C * (case["knobs"]["step_limit"] + 2) + BOUND_PER_ACT
+    # reading the source text and compiling the pattern is linear in the pattern's length (several
+    # entry points build the pattern more than once)
+    c0 = BOUND_C0 + 600 * len(FAMILIES[case["cell"]["family"]][0])
     max_main = 6 * (n + 2) + 60
 
     S_lim = case["knobs"]["step_limit"]
@@ -291,9 +298,9 @@ def execute(case):
             # its own step budget is not being enforced -- stop now
             W.set_cap(S.work)
             return
-        W.set_cap(start + 2 * (BOUND_C0 + 60 * n + per_act * (act["main"] + act["la"] + act["lb"] + 1)))
+        W.set_cap(start + 2 * (c0 + 60 * n + per_act * (act["main"] + act["la"] + act["lb"] + 1)))
     st["grow"] = None
-    cap = 2 * (BOUND_C0 + 60 * n + per_act)
+    cap = 2 * (c0 + 60 * n + per_act)
     off0 = S.mono_off
     st["grow"] = grow
     try:
